@@ -499,3 +499,393 @@ def _walk(node):
     elif isinstance(node, ast.For):
         node = node.iter
     return ast.walk(node)
+
+
+# ---------------------------------------------------------------------------------------------------- bounded evaluation
+class SimUnknown(Exception):
+    def __init__(self, node, why=''):
+        self.node, self.why = node, why
+
+
+class SDate:
+    """a date as its offset in days from the start date of the search"""
+
+    def __init__(self, off):
+        self.off = off
+
+    def __repr__(self):
+        return f"start{self.off:+g}d"
+
+
+class STd:
+    def __init__(self, days):
+        self.days = days
+
+
+class _Sig(Exception):
+    def __init__(self, kind, value=None, node=None):
+        self.kind, self.value, self.node = kind, value, node
+
+
+_SELF = object()
+_TD_SCALE = {'days': 1.0, 'seconds': 1 / 86400.0, 'microseconds': 1 / 86400e6, 'milliseconds': 1 / 86400e3,
+             'minutes': 1 / 1440.0, 'hours': 1 / 24.0, 'weeks': 7.0}
+_TD_ORDER = ['days', 'seconds', 'microseconds', 'milliseconds', 'minutes', 'hours', 'weeks']
+_QUIET = ('logging', 'logger', 'log', '_log', '_logger', 'LOG', '_LOG', 'LOGGER', '_LOGGER', 'warnings')
+
+
+class SearchSim:
+    """Evaluates the ast of an availability search for ONE small input: start date = day 0, the given direction and
+    horizon, and a capacity oracle (the set of day offsets with positive capacity).  Numbers, dates (as day offsets),
+    timedeltas, booleans and None are the whole value domain; `self.get_available_units(date, ..)` asks the oracle;
+    private helpers of the package are entered; anything else ends as SimUnknown.  Nothing is imported or run: this is
+    a walk over ast nodes."""
+
+    def __init__(self, prog, f: Func, avail, direction, max_days, budget=600):
+        self.prog, self.f, self.avail = prog, f, avail
+        self.direction, self.max_days, self.budget = direction, max_days, budget
+        self.probes: List[float] = []
+
+    # -- entry
+    def run(self):
+        """('return', value) | ('raise', exception name) | ('fall', None) | ('timeout', None)"""
+        f = self.f
+        env = {}
+        a = f.node.args
+        names = [x.arg for x in a.posonlyargs + a.args]
+        defaults = dict(zip(names[len(names) - len(a.defaults):], a.defaults))
+        for i, p in enumerate(names):
+            if i == 0:
+                env[p] = _SELF
+            elif i == 1:
+                env[p] = SDate(0.0)
+            elif p == 'direction':
+                env[p] = self.direction
+            elif p == 'max_days':
+                env[p] = self.max_days
+            elif p in defaults:
+                env[p] = self.ev(defaults[p], {}, f)
+            else:
+                raise SimUnknown(f.node, f"parameter {p} without a default")
+        for k, d in zip(a.kwonlyargs, a.kw_defaults):
+            if d is None:
+                raise SimUnknown(f.node, f"parameter {k.arg} without a default")
+            env[k.arg] = self.ev(d, {}, f)
+        try:
+            self.block(f.body, env, f, 0)
+        except _Sig as s:
+            if s.kind in ('return', 'raise', 'timeout'):
+                return s.kind, s.value
+            raise SimUnknown(s.node, f"`{s.kind}` outside a loop")
+        return 'fall', None
+
+    # -- statements
+    def block(self, stmts, env, f, depth):
+        for st in stmts:
+            self.budget -= 1
+            if self.budget < 0:
+                raise _Sig('timeout')
+            if isinstance(st, ast.Expr):
+                v = st.value
+                if isinstance(v, ast.Constant):
+                    continue
+                if isinstance(v, ast.Call):
+                    root = v.func
+                    while isinstance(root, ast.Attribute):
+                        root = root.value
+                    if isinstance(root, ast.Name) and (root.id in _QUIET or (root.id == 'print' and root is v.func)):
+                        continue
+                self.ev(v, env, f, depth)
+            elif isinstance(st, ast.Assign):
+                val = self.ev(st.value, env, f, depth)
+                for t in st.targets:
+                    self.store(t, val, env)
+            elif isinstance(st, ast.AnnAssign):
+                if st.value is not None:
+                    self.store(st.target, self.ev(st.value, env, f, depth), env)
+            elif isinstance(st, ast.AugAssign):
+                if not isinstance(st.target, ast.Name):
+                    raise SimUnknown(st, "augmented assignment to something else than a local")
+                cur = self.ev(ast.Name(id=st.target.id, ctx=ast.Load()), env, f, depth)
+                env[st.target.id] = self.binop(cur, st.op, self.ev(st.value, env, f, depth), st)
+            elif isinstance(st, ast.If):
+                self.block(st.body if self.truth(self.ev(st.test, env, f, depth)) else st.orelse, env, f, depth)
+            elif isinstance(st, ast.While):
+                broke = False
+                while self.truth(self.ev(st.test, env, f, depth)):
+                    self.budget -= 1
+                    if self.budget < 0:
+                        raise _Sig('timeout')
+                    try:
+                        self.block(st.body, env, f, depth)
+                    except _Sig as s:
+                        if s.kind == 'break':
+                            broke = True
+                            break
+                        if s.kind != 'continue':
+                            raise
+                if not broke:
+                    self.block(st.orelse, env, f, depth)
+            elif isinstance(st, ast.For):
+                it = self.ev(st.iter, env, f, depth)
+                if not isinstance(it, (range, list, tuple)):
+                    raise SimUnknown(st.iter, "loop over something else than a range")
+                broke = False
+                for x in it:
+                    self.budget -= 1
+                    if self.budget < 0:
+                        raise _Sig('timeout')
+                    self.store(st.target, x, env)
+                    try:
+                        self.block(st.body, env, f, depth)
+                    except _Sig as s:
+                        if s.kind == 'break':
+                            broke = True
+                            break
+                        if s.kind != 'continue':
+                            raise
+                if not broke:
+                    self.block(st.orelse, env, f, depth)
+            elif isinstance(st, ast.Return):
+                raise _Sig('return', self.ev(st.value, env, f, depth) if st.value is not None else None, st)
+            elif isinstance(st, ast.Raise):
+                if st.exc is None:
+                    raise SimUnknown(st, "bare raise")
+                raise _Sig('raise', exc_name(st), st)
+            elif isinstance(st, ast.Assert):
+                if not self.truth(self.ev(st.test, env, f, depth)):
+                    raise _Sig('raise', 'AssertionError', st)
+            elif isinstance(st, ast.Break):
+                raise _Sig('break', None, st)
+            elif isinstance(st, ast.Continue):
+                raise _Sig('continue', None, st)
+            elif isinstance(st, ast.Pass):
+                continue
+            else:
+                raise SimUnknown(st, f"statement `{type(st).__name__}`")
+
+    def store(self, t, val, env):
+        if isinstance(t, ast.Name):
+            env[t.id] = val
+        elif isinstance(t, (ast.Tuple, ast.List)) and isinstance(val, (tuple, list)) and len(t.elts) == len(val):
+            for x, v in zip(t.elts, val):
+                self.store(x, v, env)
+        else:
+            raise SimUnknown(t, "store into something else than a local")
+
+    # -- expressions
+    @staticmethod
+    def truth(v):
+        if isinstance(v, (SDate, STd)) or v is _SELF:
+            if isinstance(v, STd):
+                return v.days != 0
+            return True
+        return bool(v)
+
+    def binop(self, a, op, b, node):
+        num = (int, float)
+        isnum = lambda x: isinstance(x, num) and not isinstance(x, bool) or isinstance(x, bool)
+        try:
+            if isinstance(op, ast.Add):
+                if isinstance(a, SDate) and isinstance(b, STd):
+                    return SDate(a.off + b.days)
+                if isinstance(a, STd) and isinstance(b, SDate):
+                    return SDate(a.days + b.off)
+                if isinstance(a, STd) and isinstance(b, STd):
+                    return STd(a.days + b.days)
+                if isnum(a) and isnum(b):
+                    return a + b
+            elif isinstance(op, ast.Sub):
+                if isinstance(a, SDate) and isinstance(b, STd):
+                    return SDate(a.off - b.days)
+                if isinstance(a, SDate) and isinstance(b, SDate):
+                    return STd(a.off - b.off)
+                if isinstance(a, STd) and isinstance(b, STd):
+                    return STd(a.days - b.days)
+                if isnum(a) and isnum(b):
+                    return a - b
+            elif isinstance(op, ast.Mult):
+                if isinstance(a, STd) and isnum(b):
+                    return STd(a.days * b)
+                if isnum(a) and isinstance(b, STd):
+                    return STd(a * b.days)
+                if isnum(a) and isnum(b):
+                    return a * b
+            elif isinstance(op, (ast.Div, ast.FloorDiv, ast.Mod)) and isnum(a) and isnum(b):
+                if b == 0:
+                    raise _Sig('raise', 'ZeroDivisionError', node)
+                return a / b if isinstance(op, ast.Div) else (a // b if isinstance(op, ast.FloorDiv) else a % b)
+            elif isinstance(op, ast.Div) and isinstance(a, STd) and isnum(b) and b != 0:
+                return STd(a.days / b)
+        except TypeError:
+            pass
+        raise SimUnknown(node, f"`{src(node)[:60]}`: operands outside the value domain")
+
+    def cmp(self, a, op, b, node):
+        if isinstance(op, ast.Is):
+            if a is None or b is None or isinstance(a, bool) or isinstance(b, bool):
+                return a is b
+            raise SimUnknown(node, "identity test")
+        if isinstance(op, ast.IsNot):
+            return not self.cmp(a, ast.Is(), b, node)
+        ka = a.off if isinstance(a, SDate) else (a.days if isinstance(a, STd) else a)
+        kb = b.off if isinstance(b, SDate) else (b.days if isinstance(b, STd) else b)
+        if type(a) in (SDate, STd) or type(b) in (SDate, STd):
+            if type(a) is not type(b):
+                if isinstance(op, ast.Eq):
+                    return False
+                if isinstance(op, ast.NotEq):
+                    return True
+                raise SimUnknown(node, "comparison between a date and a number")
+        if isinstance(op, ast.Eq):
+            return ka == kb
+        if isinstance(op, ast.NotEq):
+            return ka != kb
+        if isinstance(op, (ast.In, ast.NotIn)):
+            if isinstance(kb, (tuple, list, range)):
+                return (ka in kb) == isinstance(op, ast.In)
+            raise SimUnknown(node, "membership test")
+        if ka is None or kb is None or ka is _SELF or kb is _SELF:
+            raise SimUnknown(node, "ordering comparison with None")
+        try:
+            if isinstance(op, ast.Lt):
+                return ka < kb
+            if isinstance(op, ast.LtE):
+                return ka <= kb
+            if isinstance(op, ast.Gt):
+                return ka > kb
+            if isinstance(op, ast.GtE):
+                return ka >= kb
+        except TypeError:
+            pass
+        raise SimUnknown(node, "comparison outside the value domain")
+
+    def ev(self, e, env, f, depth=0):
+        if isinstance(e, ast.Constant):
+            if isinstance(e.value, (int, float, bool)) or e.value is None:
+                return e.value
+            raise SimUnknown(e, "constant outside the value domain")
+        if isinstance(e, ast.Name):
+            if e.id in env:
+                return env[e.id]
+            raise SimUnknown(e, f"`{e.id}` is not a local of the search")
+        if isinstance(e, ast.UnaryOp):
+            v = self.ev(e.operand, env, f, depth)
+            if isinstance(e.op, ast.Not):
+                return not self.truth(v)
+            if isinstance(e.op, ast.USub):
+                if isinstance(v, STd):
+                    return STd(-v.days)
+                if isinstance(v, (int, float)):
+                    return -v
+            if isinstance(e.op, ast.UAdd) and isinstance(v, (int, float, STd)):
+                return v
+            raise SimUnknown(e, "unary operator")
+        if isinstance(e, ast.BinOp):
+            return self.binop(self.ev(e.left, env, f, depth), e.op, self.ev(e.right, env, f, depth), e)
+        if isinstance(e, ast.BoolOp):
+            v = None
+            for x in e.values:
+                v = self.ev(x, env, f, depth)
+                if isinstance(e.op, ast.And) and not self.truth(v):
+                    return v
+                if isinstance(e.op, ast.Or) and self.truth(v):
+                    return v
+            return v
+        if isinstance(e, ast.IfExp):
+            return self.ev(e.body if self.truth(self.ev(e.test, env, f, depth)) else e.orelse, env, f, depth)
+        if isinstance(e, ast.Compare):
+            left = self.ev(e.left, env, f, depth)
+            for op, c in zip(e.ops, e.comparators):
+                right = self.ev(c, env, f, depth)
+                if not self.cmp(left, op, right, e):
+                    return False
+                left = right
+            return True
+        if isinstance(e, (ast.Tuple, ast.List)):
+            return tuple(self.ev(x, env, f, depth) for x in e.elts)
+        if isinstance(e, ast.Call):
+            return self.call(e, env, f, depth)
+        raise SimUnknown(e, f"`{src(e)[:60]}` is outside the value domain")
+
+    def call(self, c, env, f, depth):
+        fn = c.func
+        if any(isinstance(a, ast.Starred) for a in c.args) or any(k.arg is None for k in c.keywords):
+            raise SimUnknown(c, "star arguments")
+        if isinstance(fn, ast.Name) and fn.id not in env:
+            if fn.id == 'timedelta':
+                days = 0.0
+                vals = list(zip(_TD_ORDER, c.args)) + [(k.arg, k.value) for k in c.keywords]
+                for name, a in vals:
+                    v = self.ev(a, env, f, depth)
+                    if name not in _TD_SCALE or not isinstance(v, (int, float)):
+                        raise SimUnknown(c, "timedelta argument")
+                    days += v * _TD_SCALE[name]
+                return STd(days)
+            if fn.id in ('range', 'abs', 'int', 'float', 'min', 'max', 'bool', 'round') and not c.keywords:
+                args = [self.ev(a, env, f, depth) for a in c.args]
+                if all(isinstance(a, (int, float)) for a in args):
+                    try:
+                        return {'range': range, 'abs': abs, 'int': int, 'float': float, 'min': min, 'max': max,
+                                'bool': bool, 'round': round}[fn.id](*args)
+                    except (TypeError, ValueError):
+                        pass
+                raise SimUnknown(c, f"{fn.id}() over values outside the domain")
+            g = self.prog.module_func(f.module.name, fn.id)
+            if g is None:
+                q = self.prog.resolve_import(f.module, fn.id)
+                g = self.prog.funcs.get(q) if q else None
+            if g is not None and g.kind == 'function':
+                return self.enter(g, c, None, env, f, depth)
+            raise SimUnknown(c, f"call of `{fn.id}`")
+        if isinstance(fn, ast.Attribute):
+            if fn.attr == 'get_available_units':
+                recv = self.ev(fn.value, env, f, depth)
+                if recv is not _SELF or not c.args and not c.keywords:
+                    raise SimUnknown(c, "capacity query on something else than the resource")
+                a0 = c.args[0] if c.args else next((k.value for k in c.keywords if k.arg == 'date'), None)
+                d = self.ev(a0, env, f, depth) if a0 is not None else None
+                if not isinstance(d, SDate):
+                    raise SimUnknown(c, "capacity query without a date")
+                self.probes.append(d.off)
+                import math
+                return 1.0 if math.floor(d.off + 1e-9) in self.avail else 0.0
+            if isinstance(fn.value, ast.Name) and (env.get(fn.value.id) is _SELF or fn.value.id in self.prog.classes) and f.cls:
+                g = self.prog.find_method(f.cls, unmangle(fn.attr))
+                if g is not None and g.kind in ('method', 'static') and fn.attr.startswith('_'):
+                    return self.enter(g, c, _SELF if g.kind == 'method' else None, env, f, depth)
+        raise SimUnknown(c, f"call `{src(c)[:60]}`")
+
+    def enter(self, g, c, recv, env, f, depth):
+        if depth >= 3:
+            raise SimUnknown(c, "helper nesting")
+        a = g.node.args
+        if a.vararg or a.kwarg or a.kwonlyargs:
+            raise SimUnknown(c, "helper with star parameters")
+        names = [x.arg for x in a.posonlyargs + a.args]
+        new = {}
+        if recv is not None:
+            new[names[0]] = recv
+            names = names[1:]
+        if len(c.args) > len(names):
+            raise SimUnknown(c, "helper arguments")
+        for p, x in zip(names, c.args):
+            new[p] = self.ev(x, env, f, depth)
+        for k in c.keywords:
+            if k.arg not in names or k.arg in new:
+                raise SimUnknown(c, "helper arguments")
+            new[k.arg] = self.ev(k.value, env, f, depth)
+        nd = len(a.defaults)
+        allnames = [x.arg for x in a.posonlyargs + a.args]
+        for p, d in zip(allnames[len(allnames) - nd:], a.defaults):
+            if p not in new:
+                new[p] = self.ev(d, {}, g, depth)
+        if any(p not in new for p in names):
+            raise SimUnknown(c, "helper arguments")
+        try:
+            self.block(g.body, new, g, depth + 1)
+        except _Sig as s:
+            if s.kind == 'return':
+                return s.value
+            raise
+        return None
